@@ -446,7 +446,7 @@ def run_synth(ctx, h, drv, r, wd, nlogs, ncut):
     if not drv:
         return
     cases = synth_cases(ctx, r, wd, nlogs, ncut)
-    mout, mcr = run_batch([drv, "c05"], cases, timeout=900)
+    mout, mcr = run_batch([drv, "c05"], cases, timeout=1800, stall=900)
     if mcr:
         ctx.corr_broken.append("model driver failed on synthetic logs: %s" % str(list(mcr.values())[0][1])[-300:])
         return
@@ -674,7 +674,7 @@ def explore(ctx, h, drv, label, nhist, nops, quota_cuts, quota_flips, grow=(6000
     mout = mcr = None
     if drv:
         mcases = [Case("log", c.model) for c in cases]
-        mout, mcr = run_batch([drv, "c05"], mcases, timeout=900)
+        mout, mcr = run_batch([drv, "c05"], mcases, timeout=1800, stall=900)
         ctx.log("model done")
         if mcr:
             i = sorted(mcr)[0]
